@@ -387,21 +387,43 @@ def get_binding_obligations(chk, I):
         return _MISSING
     I2.hooks["iter"] = iter_hook
 
+    # ---- roles of the locals of _get_binding, read off the *uses* the contract is about (not off their names):
+    # the flags are what is passed to _Truth(has_...=<flag>), the others what is passed to the binder's constructor
+    import ast as _ast
+    _m, _c, _node = I2.src.find_def(func)
+    NAME = {}
+    for cnode in _ast.walk(_node):
+        if isinstance(cnode, _ast.Call):
+            fn = _ast.unparse(cnode.func)
+            for kw_ in cnode.keywords:
+                if kw_.arg is None:
+                    continue
+                if fn.endswith("_Truth") and isinstance(kw_.value, _ast.Name):
+                    NAME[kw_.arg] = kw_.value.id
+                elif kw_.arg in ("binding", "varkwd", "varpos") and isinstance(kw_.value, _ast.Name) and not fn.endswith("_Truth"):
+                    NAME[kw_.arg] = kw_.value.id
+                elif kw_.arg == "startpos":
+                    ns = [n_.id for n_ in _ast.walk(kw_.value) if isinstance(n_, _ast.Name)]
+                    if ns:
+                        NAME["max_pos"] = ns[0]
+    for need in FLAGS + ("binding", "varkwd", "varpos", "max_pos"):
+        NAME.setdefault(need, need)
+
     # ---- the loop contract (keyed by function + loop ordinal 0)
     def havoc(I2, path, env, k):
         has_arr = path.fresh("b_has", z3.ArraySort(Val, BoolS))
         val_arr = path.fresh("b_val", z3.ArraySort(Val, Val))
-        env.set("binding", SDict.from_arrays(has_arr, val_arr))
+        env.set(NAME["binding"], SDict.from_arrays(has_arr, val_arr))
         for nm in ("has_pos_only", "has_kwd_only", "has_args", "has_kwargs", "has_pos_or_kwd"):
-            env.set(nm, SBool(path.fresh(nm, BoolS)))
+            env.set(NAME[nm], SBool(path.fresh(nm, BoolS)))
         # max_pos / varpos / varkwd are Optional: model as (is_none flag, value)
-        env.set("max_pos", _Opt(path.fresh("mp_none", BoolS), SInt(path.fresh("mp", IntS))))
-        env.set("varpos", _Opt(path.fresh("vpos_none", BoolS), SV(path.fresh("vpos"))))
-        env.set("varkwd", _Opt(path.fresh("vkwd_none", BoolS), SV(path.fresh("vkwd"))))
+        env.set(NAME["max_pos"], _Opt(path.fresh("mp_none", BoolS), SInt(path.fresh("mp", IntS))))
+        env.set(NAME["varpos"], _Opt(path.fresh("vpos_none", BoolS), SV(path.fresh("vpos"))))
+        env.set(NAME["varkwd"], _Opt(path.fresh("vkwd_none", BoolS), SV(path.fresh("vkwd"))))
 
     def inv(I2, path, env, k):
         sig = sigbox["sig"]
-        b = env.lookup("binding")
+        b = env.lookup(NAME["binding"])
         key = z3.Const("key", Val)
         if isinstance(b, dict) and not b:
             has_k = lambda key: z3.BoolVal(False)
@@ -414,7 +436,7 @@ def get_binding_obligations(chk, I):
                   name="inv-values")]
 
         def flag(nm, cnt_pred):
-            v = env.lookup(nm)
+            v = env.lookup(NAME[nm])
             vt = v.t if isinstance(v, SBool) else z3.BoolVal(bool(v))
             conj.append(vt == cnt_pred)
         mn = lambda a, b_: z3.If(a <= b_, a, b_)
@@ -423,7 +445,7 @@ def get_binding_obligations(chk, I):
         flag("has_args", z3.And(sig.vp, k > sig.iVP))
         flag("has_kwd_only", z3.And(sig.nKO > 0, k > sig.P + z3.If(sig.vp, 1, 0)))
         flag("has_kwargs", z3.And(sig.vk, k > sig.iVK))
-        mp, vpos, vkwd = env.lookup("max_pos"), env.lookup("varpos"), env.lookup("varkwd")
+        mp, vpos, vkwd = env.lookup(NAME["max_pos"]), env.lookup(NAME["varpos"]), env.lookup(NAME["varkwd"])
         mp_none, mp_val = _opt_parts(mp, val=False)
         # max_pos: None until a PO or VP parameter was seen; last PO index, or iVP-1 once *args was seen
         seen_vp = z3.And(sig.vp, k > sig.iVP)
